@@ -78,6 +78,12 @@ KERNELS = [
          pick=('attr-assign', 'self.piece_size'),
          atoms={'self.piece_size_max': 'pmax', 'self.piece_size': 'piece_size'},
          params=[('pmax', 'Int'), ('piece_size', 'Int')], ret='Int'),
+    # --- Torrent.verify_filesize (C20): the size comparison and the files_done counter handed to the callback
+    dict(name='fsSizeMismatch', file='torf/_torrent.py', func='Torrent.verify_filesize',
+         pick=('if-test-guarding', 'error.VerifyFileSizeError(fs_filepath'),
+         params=[('fs_filepath_size', 'Int'), ('expected_size', 'Int')], ret='Bool'),
+    dict(name='fsFilesDone', file='torf/_torrent.py', func='Torrent.verify_filesize', pick=('assign', 'files_done'),
+         params=[('file_index', 'Int')], ret='Int'),
     dict(name='forceGenerate', file='torf/_generate.py', func='GenerateCallback._force_callback', pick=('return',),
          atoms={'exceptions': 'has_exc'},
          params=[('has_exc', 'Bool'), ('pieces_done', 'Int'), ('pieces_total', 'Int')], ret='Bool'),
